@@ -109,6 +109,8 @@ type c18case struct {
 	ref  func(g *g18) string              // performs the documented ID-based equivalent
 	seed int
 	rel  bool // needs the relation variant with a map constructed with relation
+	// mustPanic: the generic call is documented to panic (a target although the map has no relation); ref is not run
+	mustPanic bool
 }
 
 func posCheck(g *g18, q gen18.Query, write uint64) string {
@@ -271,8 +273,48 @@ func c18Cases(ar *gen18.Arity) []c18case {
 					q := g.w.Relations().ExchangeBatchQ(addFilter(g), g.ids, nil, g.gr, g.ents[0])
 					return refQuery(g, &q, 900)
 				}},
+			c18case{name: "Remove(target)", seed: 1, rel: true,
+				gen: func(g *g18, m gen18.Map) string { m.Remove(g.ents[4], g.ents[1]); return "" },
+				ref: func(g *g18) string { g.w.Relations().Exchange(g.ents[4], nil, g.ids, g.gr, g.ents[1]); return "" }},
+			c18case{name: "RemoveBatch(target)", seed: 1, rel: true,
+				gen: func(g *g18, m gen18.Map) string { return fmt.Sprint(m.RemoveBatch(ecs.All(g.ids...), g.ents[1])) },
+				ref: func(g *g18) string {
+					return fmt.Sprint(g.w.Relations().ExchangeBatch(ecs.All(g.ids...), nil, g.ids, g.gr, g.ents[1]))
+				}},
+			c18case{name: "RemoveBatchQ(target)", seed: 1, rel: true,
+				gen: func(g *g18, m gen18.Map) string { return posCheck(g, m.RemoveBatchQ(ecs.All(g.ids...), g.ents[1]), 0) },
+				ref: func(g *g18) string {
+					q := g.w.Relations().ExchangeBatchQ(ecs.All(g.ids...), nil, g.ids, g.gr, g.ents[1])
+					return refQuery(g, &q, 0)
+				}},
 		)
 	}
+	// a target although the map was constructed without relation: documented to panic, for every method taking a target
+	tgt := func(g *g18) ecs.Entity { return g.ents[0] }
+	cs = append(cs,
+		c18case{name: "New(target) without relation", seed: 1, mustPanic: true, gen: func(g *g18, m gen18.Map) string { m.New(tgt(g)); return "" }},
+		c18case{name: "NewBatch(target) without relation", seed: 1, mustPanic: true, gen: func(g *g18, m gen18.Map) string { m.NewBatch(1, tgt(g)); return "" }},
+		c18case{name: "NewBatchQ(target) without relation", seed: 1, mustPanic: true, gen: func(g *g18, m gen18.Map) string {
+			q := m.NewBatchQ(1, tgt(g))
+			q.Q().Close()
+			return ""
+		}},
+		c18case{name: "NewWith(target) without relation", seed: 1, mustPanic: true, gen: func(g *g18, m gen18.Map) string { m.NewWith(vals, tgt(g)); return "" }},
+		c18case{name: "Add(target) without relation", seed: 1, mustPanic: true, gen: func(g *g18, m gen18.Map) string { m.Add(g.ents[1], tgt(g)); return "" }},
+		c18case{name: "AddBatch(target) without relation", seed: 1, mustPanic: true, gen: func(g *g18, m gen18.Map) string { m.AddBatch(addFilter(g), tgt(g)); return "" }},
+		c18case{name: "AddBatchQ(target) without relation", seed: 1, mustPanic: true, gen: func(g *g18, m gen18.Map) string {
+			q := m.AddBatchQ(addFilter(g), tgt(g))
+			q.Q().Close()
+			return ""
+		}},
+		c18case{name: "Remove(target) without relation", seed: 1, mustPanic: true, gen: func(g *g18, m gen18.Map) string { m.Remove(g.ents[4], tgt(g)); return "" }},
+		c18case{name: "RemoveBatch(target) without relation", seed: 1, mustPanic: true, gen: func(g *g18, m gen18.Map) string { m.RemoveBatch(ecs.All(g.ids...), tgt(g)); return "" }},
+		c18case{name: "RemoveBatchQ(target) without relation", seed: 1, mustPanic: true, gen: func(g *g18, m gen18.Map) string {
+			q := m.RemoveBatchQ(ecs.All(g.ids...), tgt(g))
+			q.Q().Close()
+			return ""
+		}},
+	)
 	return cs
 }
 
@@ -289,6 +331,15 @@ func c18RunCase(ar *gen18.Arity, c *c18case) (msg string) {
 	}
 	var ra, rb string
 	pa := catchP(func() { ra = c.gen(a, m) })
+	if c.mustPanic {
+		if pa == nil {
+			return "a target was given to a map without relation component, but the call did not panic"
+		}
+		if a.snap() != b.snap() || a.w.IsLocked() {
+			return "a target was given to a map without relation component: the call panicked, but changed the world"
+		}
+		return ""
+	}
 	pb := catchP(func() { rb = c.ref(b) })
 	if (pa == nil) != (pb == nil) {
 		return fmt.Sprintf("generic call panicked: %v; ID-based equivalent panicked: %v", pa, pb)
@@ -623,6 +674,17 @@ func init() {
 		for v := 0; v < 2; v++ {
 			for n := 1; n <= 12; n++ {
 				ar := &gen18.Arities[v][n]
+				// generic.T<N>[...]() lists the same types in the same order as generic.T[..]() one by one
+				if tn := ar.TN(); len(tn) != len(ar.Types) {
+					viol("tn:len", fmt.Sprintf("generic.T%d returns %d types", n, len(tn)), nil)
+				} else {
+					for k := range tn {
+						evals++
+						if tn[k] != ar.Types[k] {
+							viol("tn:position", fmt.Sprintf("generic.T%d: position %d is %v, expected %v", n, k, tn[k], ar.Types[k]), nil)
+						}
+					}
+				}
 				cs := c18Cases(ar)
 				for ci := range cs {
 					evals++
